@@ -1349,14 +1349,36 @@ def _any_all(is_any):
     def h(I, st, fr, t, a):
         r0 = a[0]
         it = I.read_at(st, r0.cell, r0.path) if isinstance(r0, Ref) else r0
-        vals, st = _items_for_consumer(I, st, it)
+        items, st = drain(I, st, it)
         acc = C0 if is_any else C1
         before = dict(st.store)
-        for v in vals:
-            r, st = I.call_closure(st, a[1], [v])
-            if st is None:
-                return BOTTOM, None
-            acc = B.bor(acc, r.bits[0]) if is_any else B.band(acc, r.bits[0])
+        for item in items:
+            pres = C1
+            cur = item
+            while cur[0] in ('cond', 'filtered'):
+                pres = B.band(pres, cur[1])
+                cur = cur[2]
+            if cur[0] == 'bulk':
+                # one symbolic element stands for every square of the bulk (present iff the bulk is non-empty)
+                pres = B.band(pres, I.nonzero_bit(cur[1]))
+                val = cur[2]
+                by_ref = isinstance(it, Struct) and it.ty == '$SliceIter' and it.fields[2] != 'owned'
+                if by_ref:
+                    cell = ('static', 'anyelem:%d' % next(I.frame_counter))
+                    st.store[cell] = val
+                    val = Ref(cell)
+            else:
+                val = cur[1]
+                if isinstance(it, Struct) and it.ty == '$SliceIter' and it.fields[2] != 'owned' and not isinstance(val, Ref):
+                    cell = ('static', 'anyelem:%d' % next(I.frame_counter))
+                    st.store[cell] = val
+                    val = Ref(cell)
+            r, st2 = I.call_closure(st, a[1], [val])
+            if st2 is None:
+                continue
+            st = st2
+            bit = r.bits[0]
+            acc = B.bor(acc, B.band(pres, bit)) if is_any else B.band(acc, B.bor(B.bnot(pres), bit))
         changed = [c for c, v in st.store.items() if c in before and before[c] is not v and c[0] != 'static']
         if changed:
             raise from_undecided()('short-circuiting iterator predicate with side effects')
@@ -1584,3 +1606,44 @@ drain = drain2
 import sys as _sys
 _mod = _sys.modules[__name__]
 _mod.drain = drain2
+
+
+# ---- one-character strings (char::to_string) keep their provenance so that integer parsing of them is known canonical
+_prev_to_string = None
+
+
+def to_string2(I, st, fr, t, a):
+    v = I.deref(st, a[0]) if isinstance(a[0], Ref) else a[0]
+    if isinstance(v, Term) and v.w == 32 and v.hi <= 0x10FFFF and (t.get('res') or {}).get('args', '').strip('[]') == 'char':
+        cell = ('static', 'charstr:%d' % next(I.frame_counter))
+        I.static_cells[cell] = Struct('$charstr', (v,))
+        st.store[cell] = I.static_cells[cell]
+        return Struct('$String', (Ref(cell),)), st
+    return typed_opaque(I, st, fr, t, a)
+
+
+TABLE['<T as std::string::ToString>::to_string'] = to_string2
+
+
+def string_deref2(I, st, fr, t, a):
+    v = I.deref(st, a[0]) if isinstance(a[0], Ref) else a[0]
+    if isinstance(v, Struct) and v.ty == '$String':
+        return v.fields[0], st
+    return typed_opaque(I, st, fr, t, a)
+
+
+TABLE['<std::string::String as std::ops::Deref>::deref'] = string_deref2
+
+_prev_parse = TABLE['core::str::<impl str>::parse']
+
+
+def str_parse2(I, st, fr, t, a):
+    target = (t.get('res') or {}).get('args', '').strip('[]').split(',')[0].strip()
+    if target in ('usize', 'u8', 'u16', 'u32', 'u64', 'isize', 'i32', 'i64'):
+        v = I.deref(st, a[0]) if isinstance(a[0], Ref) else a[0]
+        one_char = isinstance(v, Struct) and v.ty == '$charstr'
+        I.ev('int-parse', fr.fname if fr else None, t.get('at'), 'one-char' if one_char else 'unbounded')
+    return _prev_parse(I, st, fr, t, a)
+
+
+TABLE['core::str::<impl str>::parse'] = str_parse2
